@@ -8,6 +8,7 @@
 #include <functional>
 #include <memory>
 #include <csignal>
+#include <ctime>
 
 extern "C" void __sanitizer_set_death_callback(void (*)(void)) __attribute__((weak));
 
@@ -48,6 +49,9 @@ inline void install_crash_hooks() {
     signal(SIGABRT, on_signal); signal(SIGSEGV, on_signal); signal(SIGBUS, on_signal); signal(SIGILL, on_signal); signal(SIGFPE, on_signal);
 }
 
+// monotonic seconds; not ::time(), which several harnesses replace by a virtual clock (--wrap=time)
+inline time_t mono_seconds() { struct timespec ts; clock_gettime(CLOCK_MONOTONIC, &ts); return ts.tv_sec + 1; }
+
 struct PropBase {
     std::string name;
     virtual ~PropBase() {}
@@ -72,10 +76,19 @@ struct PropT : PropBase {
         cc.encode = nullptr;
         return o;
     }
+    // Shrinking budget: once a failure was found, at most VERIF_MAX_SHRINK_EVALS further evaluations / VERIF_MAX_SHRINK_SECONDS
+    // are spent on shrink candidates (a broken tree can make every case wait for a reply time-out); after that candidates are
+    // reported as passing, which ends the shrink with the smallest failing case found so far.  Never affects the verdict.
+    long shrink_evals = 0; time_t first_fail_at = 0;
     bool run_random() override {
         return rc::check(name, [this] {
             Case c = *gen;
+            if (first_fail_at) {
+                shrink_evals++;
+                if (shrink_evals > envl("VERIF_MAX_SHRINK_EVALS", 400) || mono_seconds() - first_fail_at > envl("VERIF_MAX_SHRINK_SECONDS", 240)) return;
+            }
             Outcome o = guarded(c);
+            if (!o.ok() && !first_fail_at) first_fail_at = mono_seconds();
             if (!o.ok()) {
                 CaseWriter w; w.w(name).nl(); c.encode(w);
                 VR.fail(o.sig, w.str(), o.msg, name);
